@@ -13,6 +13,8 @@ use parking_lot::Mutex;
 
 use crate::Region;
 
+pub mod locks;
+
 #[derive(Debug, Clone, PartialEq, Eq)]
 pub enum IoEvent {
     /// bytes copied into the data-file mapping at `off`
